@@ -110,7 +110,9 @@ Record kase := {
   k_partial : bool;                        (* Unimock::new_partial *)
   k_clauses : list terminal;
   k_calls : list (N * list value);         (* until the first mock-induced panic *)
-  k_verify : bool                          (* then drop the instance *)
+  k_verify : bool;                         (* then drop the instance *)
+  k_swallow : bool                         (* mock-induced panics of all calls but the LAST are caught by the caller: the observed
+                                              panic is the last call's (whatever errors were recorded before) *)
 }.
 
 Section Case.
@@ -261,7 +263,11 @@ Fixpoint run_calls (cfg : config) (s : state) (calls : list (N * list value))
   | (m, vs) :: rest =>
     let a : targs := (ksig m, vs) in
     match call kinfo targs kaccepts kdebug cfg s m a with
-    | (s', ActPanic e) => (s', Some (show_error e (mismatches_of cfg e m a)))
+    | (s', ActPanic e) =>
+      match rest with
+      | _ :: _ => if k_swallow k then run_calls cfg s' rest else (s', Some (show_error e (mismatches_of cfg e m a)))
+      | [] => (s', Some (show_error e (mismatches_of cfg e m a)))
+      end
     | (s', _) => run_calls cfg s' rest
     end
   end.
